@@ -209,6 +209,21 @@ def desugar_try_once(text):
             j -= 1
             if j >= 0 and toks[j].kind == "punct" and toks[j].text in (".", "::"):
                 j -= 1
+                # generic arguments in the middle of a path: `Type::<A, B>::method`
+                if j >= 0 and toks[j].kind == "punct" and toks[j].text == ">" and toks[j + 1].text == "::":
+                    depth = 0
+                    while j >= 0:
+                        if toks[j].text == ">":
+                            depth += 1
+                        elif toks[j].text == "<":
+                            depth -= 1
+                            if depth == 0:
+                                break
+                        j -= 1
+                    j -= 1
+                    if j < 0 or toks[j].text != "::":
+                        raise ValueError("unexpected generic args in path before `?`")
+                    j -= 1
                 continue
             break
         elif t.kind == "punct" and t.text == "?":
@@ -295,13 +310,9 @@ class Expander:
                 edits.append((t.start, toks[i + 2].end, "vx_vec_with_capacity"))
                 self.rewrites.append("%s: `Vec::with_capacity` -> budgeted allocator stand-in `vx_vec_with_capacity` (C14 allocation obligation)" % rel)
             i += 1
-        # closure `_` params: regex on code outside strings/comments is good enough given the lexer above
-        for m in re.finditer(r"\|\s*_\s*\|", text):
-            if self._in_code(text, m.start()):
-                edits.append((m.start(), m.end(), "|_vx%d|" % len(self.rewrites)))
-                self.rewrites.append("%s: closure param `_` alpha-renamed" % rel)
         edits.sort()
         pos = 0
+        first = len(self.out.segs)
         for s, e, r in edits:
             if s < pos:
                 continue
@@ -309,6 +320,21 @@ class Expander:
             self.out.add(r, ("rewrite", rel, a + s))
             pos = e
         self.out.add(text[pos:], ("repo", rel, a + pos))
+        # closure `_` params are alpha-renamed *inside* the segment (a few bytes of drift within the line, no split:
+        # later rewrites such as `?` desugaring need the whole expression in one segment)
+        for sg in self.out.segs[first:]:
+            if sg.origin[0] != "repo" or "|" not in sg.text:
+                continue
+            t = sg.text
+            out, p0 = [], 0
+            for m in re.finditer(r"\|\s*_\s*\|", t):
+                if self._in_code(t, m.start()):
+                    out.append(t[p0:m.start()] + "|_vx%d|" % len(self.rewrites))
+                    p0 = m.end()
+                    self.rewrites.append("%s: closure param `_` alpha-renamed" % rel)
+            if out:
+                out.append(t[p0:])
+                sg.text = "".join(out)
 
     _code_cache = {}
 
